@@ -226,7 +226,7 @@ check("C11", "concurrent requests never lose or tear updates", "exploration",
       "established. A second 202 for a delete that raced past the same existence check is accepted; while finding C11/artifact-put-not-atomic is open an artifact push is modelled as two atomic steps, "
       "and while C11/session-patch-not-atomic is open the harness admits one PATCH per session at a time.",
       "DESIGN.md §3 C11",
-      [R("^TestC11$", 8000, 60000, shards=(8, 16)), R("^TestC11Upload$", 12000, 80000, shards=(8, 16)), R("^TestC11Interleave$", 1600, 40000, shards=(8, 16), variant="vfs")])
+      [R("^TestC11$", 8000, 60000, shards=(8, 16)), R("^TestC11Upload$", 12000, 80000, shards=(8, 16)), R("^TestC11Interleave$", 1600, 40000, shards=(8, 16), variant="vfs"), R("^TestC11InterleaveLocks$", 2400, 60000, shards=(8, 16), variant="vsync")])
 
 check("C13", "concurrent use of one server is free of data races", "exploration",
       "rapid generator of concurrent programs with background ticker/timers on a -race build; oracle = Go race detector (reports parsed into signatures by the driver)",
